@@ -70,6 +70,8 @@ def classify(case, problems):
         return "C15:splitlines-other-line-boundaries"
     if case["method"] == "splitlines" and case["args"] and case["args"][0]:
         return "C15:splitlines-keepends"
+    if case["method"] in ("partition", "rpartition") and any("not a FmtStr" in p for p in problems):
+        return "C15:tuple-members-unformatted"
     if any("shared" in p for p in problems) and spec and spec[0][0] == "" and len(spec) > 1:
         return "C15:shared-formatting-lost-after-leading-empty-run"
     return "C15:" + case["method"]
@@ -122,7 +124,8 @@ def run_control_text(ctx, case):
     except Exception as ex:  # noqa
         got = repr(ex)
     want = [ref, len(ref)] if isinstance(ref, str) else ref
-    ctx.judge(got == want, case, ("C15", "control", repr(case)), "C15:text-result-parsed-as-markup", want, got)
+    ctx.judge(got == want, case, ("C15", "control", repr(case)),
+              "C15:filled-padding-parsed-as-markup" if method in ("ljust", "rjust") else "C15:text-result-parsed-as-markup", want, got)
 
 
 def run_case(ctx, case):
@@ -231,6 +234,11 @@ def _run_case(ctx, case):
         got = tuple(x.s if isinstance(x, FmtStr) else x for x in r) if isinstance(r, tuple) else r
         if got != ref:
             problems.append("answer %r, str gives %r" % (r, ref))
+        elif all(isinstance(x, str) for x in ref):
+            # the members of the tuple are text results like any other
+            for x, w in zip(r, ref):
+                if w:
+                    check_text_result(x, w)
     else:
         if r != ref or type(r) is not type(ref):
             problems.append("answer %r, str gives %r" % (r, ref))
@@ -339,7 +347,7 @@ def run(ctx):
         for spec in ([["caf\x9b", {}], [" au lait", {"bold": True}]], [["\x1b", {"fg": 31}], ["[1mA ", {"fg": 31}]],
                      [["a\x9b1", {"fg": 34}], ["m", {"fg": 34}]]):
             for m, a in (("upper", ()), ("strip", ()), ("center", (12,)), ("replace", ("a", "b")), ("lower", ()),
-                         ("zfill", (12,)), ("title", ())):
+                         ("zfill", (12,)), ("title", ()), ("ljust", (16, "*")), ("rjust", (16, "[")), ("ljust", (3, "*"))):
                 run_case(ctx, {"kind": "control-text", "spec": spec, "method": m, "args": list(a)})
                 ctx.count("control_text_calls")
     ctx.exhaustive = True
